@@ -36,6 +36,9 @@ use std::ops::Deref;
 use std::path::PathBuf;
 use std::sync::{Arc, Mutex};
 
+/// How deep macro invocations may be nested
+const MAX_MACRO_DEPTH: usize = 64;
+
 #[derive(Clone)]
 pub struct CodegenOptions {
     pub pc: ProgramCounter,
@@ -200,6 +203,9 @@ pub struct CodegenContext {
     /// The files that are being imported right now (innermost last), to detect a file that imports itself
     import_stack: Vec<PathBuf>,
 
+    /// The number of macro invocations we are inside of
+    macro_depth: usize,
+
     /// The value every definition of a variable gave it in the previous pass
     variable_definitions: HashMap<(SymbolIndex, Span), SymbolData>,
 }
@@ -251,6 +257,7 @@ impl CodegenContext {
             test_elements: vec![],
             source_map: SourceMap::default(),
             import_stack: vec![],
+            macro_depth: 0,
             variable_definitions: HashMap::new(),
         }
     }
@@ -1076,7 +1083,18 @@ impl CodegenContext {
                         );
                     }
 
-                    self.with_scope(&macro_scope, None, |s| {
+                    // A macro that (directly or through others) invokes itself would go on until the stack is used up
+                    if self.macro_depth >= MAX_MACRO_DEPTH {
+                        return Err(Diagnostic::error()
+                            .with_message(format!(
+                                "macro invocations are nested more than {} levels deep",
+                                MAX_MACRO_DEPTH
+                            ))
+                            .with_labels(vec![name.span.to_label()])
+                            .into());
+                    }
+                    self.macro_depth += 1;
+                    let result = self.with_scope(&macro_scope, None, |s| {
                         for (idx, arg_name) in def.args.iter().enumerate() {
                             let value = values.get(idx).unwrap().clone();
                             s.add_symbol(
@@ -1097,7 +1115,9 @@ impl CodegenContext {
                         }
 
                         Ok(())
-                    })?;
+                    });
+                    self.macro_depth -= 1;
+                    result?;
                 } else {
                     self.undefined.insert(UndefinedSymbol {
                         scope_nx: self.current_scope_nx,
